@@ -140,7 +140,8 @@ func fields(impl string) []*fieldrun.Field {
 			Mul: func(z, x, y int) { r[z].Mul(&r[x], &r[y]) }, Add: func(z, x, y int) { r[z].Add(&r[x], &r[y]) },
 			Sub: func(z, x, y int) { r[z].Sub(&r[x], &r[y]) }, Sqr: func(z, x int) { r[z].Sqr(&r[x]) },
 			IsZero: func(x int) bool { return r[x].IsZero() }, Eq: func(x, y int) bool { return r[x].IsEqual(&r[y]) },
-			FromBytes: func(z int, v *big.Int) bool { return r[z].UnmarshalBinary(vlib.ToLE(v, 8)) == nil }, FromBytesStrict: true, FromBytesMax: m1(pow2(64)), MontBits: 64})
+			FromBytes: func(z int, v *big.Int) bool { return r[z].UnmarshalBinary(vlib.ToLE(v, 8)) == nil }, FromBytesStrict: true, FromBytesMax: m1(pow2(64)), MontBits: 64,
+			Inv: func(z, x int) { r[z].Inv(&r[x]) }, InvSmall: func(z int, x uint64) { r[z].InvUint64(x) }, InvSmallMax: 8})
 		var q [4]fp128.Fp
 		P128 := new(big.Int).SetBytes(q[0].Order())
 		fs = append(fs, &fieldrun.Field{Name: "fp128", Impl: "vdaf/prio3/arith/fp128 " + impl, P: P128, Max: m1(P128), NRegs: 4,
@@ -152,7 +153,8 @@ func fields(impl string) []*fieldrun.Field {
 			Mul: func(z, x, y int) { q[z].Mul(&q[x], &q[y]) }, Add: func(z, x, y int) { q[z].Add(&q[x], &q[y]) },
 			Sub: func(z, x, y int) { q[z].Sub(&q[x], &q[y]) }, Sqr: func(z, x int) { q[z].Sqr(&q[x]) },
 			IsZero: func(x int) bool { return q[x].IsZero() }, Eq: func(x, y int) bool { return q[x].IsEqual(&q[y]) },
-			FromBytes: func(z int, v *big.Int) bool { return q[z].UnmarshalBinary(vlib.ToLE(v, 16)) == nil }, FromBytesStrict: true, FromBytesMax: m1(pow2(128)), MontBits: 128})
+			FromBytes: func(z int, v *big.Int) bool { return q[z].UnmarshalBinary(vlib.ToLE(v, 16)) == nil }, FromBytesStrict: true, FromBytesMax: m1(pow2(128)), MontBits: 128,
+			Inv: func(z, x int) { q[z].Inv(&q[x]) }, InvSmall: func(z int, x uint64) { q[z].InvUint64(x) }, InvSmallMax: 8})
 	}
 	l25519, _ := new(big.Int).SetString("7237005577332262213973186563042994240857116359379907606001950938285454250989", 10)
 	for _, gi := range []struct {
